@@ -161,16 +161,19 @@ func (e *Executor) RunTask(ctx context.Context, call *Call) error {
 			return err
 		}
 
+		if err := ctx.Err(); err != nil {
+			return err
+		}
+
+		// Preconditions are guards: they are enforced even when fingerprinting
+		// is skipped with --force
+		preCondMet, err := e.areTaskPreconditionsMet(ctx, t)
+		if err != nil {
+			return err
+		}
+
 		skipFingerprinting := e.ForceAll || (!call.Indirect && e.Force)
 		if !skipFingerprinting {
-			if err := ctx.Err(); err != nil {
-				return err
-			}
-
-			preCondMet, err := e.areTaskPreconditionsMet(ctx, t)
-			if err != nil {
-				return err
-			}
 
 			// Get the fingerprinting method to use
 			method := e.Taskfile.Method
